@@ -26,8 +26,20 @@ class Boom(Exception):
     pass
 
 
+try:
+    _EG = ExceptionGroup            # noqa: F821  (builtin on 3.11+)
+except NameError:
+    _EG = _extract_mod.ExceptionGroup
+
+
+class BoomGroup(_EG):
+    """a hook may well fail with an exception group of its own (a nursery, a TaskGroup); it is ONE error of the
+    extraction and has to stay retrievable as the object it is"""
+
+
 class T:
     """Fault-injection state + tracker of which extract_child invocation is innermost."""
+    groups_injected = 0
     count = {}
     plan = set()
     fired = []       # (site, k, exception, token, frames_done_top, frames_done_token)
@@ -43,7 +55,11 @@ class T:
 def tick(site, obj=None):
     n = T.count[site] = T.count.get(site, 0) + 1
     if (site, n) in T.plan:
-        ex = Boom("%s#%d" % (site, n))
+        if (n + len(site)) % 3 == 0:
+            ex = BoomGroup("%s#%d" % (site, n), [Boom("member-a"), Boom("member-b")])
+            T.groups_injected += 1
+        else:
+            ex = Boom("%s#%d" % (site, n))
         tok = T.tokens[-1] if T.tokens else None
         top = T.tokens[0] if T.tokens else None
         T.fired.append((site, n, ex, tok, T.frames_done.get(top, 0), T.frames_done.get(tok, 0), T.in_outermost > 0))
@@ -472,7 +488,7 @@ def errors_of(st):
     while todo:
         e = todo.pop(0)
         sub = getattr(e, "exceptions", None)
-        if sub is not None and type(e).__name__ == "ExceptionGroup":
+        if sub is not None and type(e).__name__ == "ExceptionGroup":      # (an injected BoomGroup is a leaf here)
             todo = list(sub) + todo
         else:
             out.append(e)
